@@ -66,14 +66,25 @@ def r1(ctx):
                           'Track::distances is reachable without the `track.track_id != other.track_id` guard: a '
                           'stored track can be paired with itself', c.ln)
                 # (b) readiness
-                flag = [k for k in conds if k.kind == 'bool' and k.expr.strip().kind == 'place' and
-                        'bool' in ''.join(b.locals[d[3]['lhs']['l']] for d in [] )or
-                        (k.kind == 'bool' and k.expr.strip().kind == 'place')]
-                flag_false = any(k.truth is False for k in flag)
-                ready = any(k.kind == 'discr' and getattr(k, 'enum_ty', '').startswith('track::TrackStatus')
-                            and k.variants == {'Ready'} for k in conds)
-                okres = any(k.kind == 'discr' and k.variants == {'Ok'} and k.expr.has_call('baked') for k in conds)
-                ctx.check(flag_false or (ready and okres), R, b, 'distances:ready-when-only-baked#%d' % n,
+                from lib import expand_conditions
+                flag_false = ready = okres = True
+                for cv in expand_conditions(b, conds):
+                    flag = [k for k in cv if k.kind == 'bool' and k.expr.strip().kind == 'place']
+                    ff = any(k.truth is False for k in flag)
+                    rd = any(k.kind == 'discr' and getattr(k, 'enum_ty', '').startswith('track::TrackStatus')
+                             and k.variants == {'Ready'} for k in cv)
+                    okr = any(k.kind == 'discr' and k.variants == {'Ok'} and k.expr.has_call('baked') for k in cv)
+                    if not (ff or (rd and okr)):
+                        flag_false = ready = okres = False
+                    flag_false = flag_false and ff
+                    ready = ready and rd
+                    okres = okres and okr
+                good = all((any(k.truth is False for k in cv if k.kind == 'bool' and k.expr.strip().kind == 'place')) or
+                           (any(k.kind == 'discr' and getattr(k, 'enum_ty', '').startswith('track::TrackStatus') and
+                                k.variants == {'Ready'} for k in cv) and
+                            any(k.kind == 'discr' and k.variants == {'Ok'} and k.expr.has_call('baked') for k in cv))
+                           for cv in expand_conditions(b, conds))
+                ctx.check(good, R, b, 'distances:ready-when-only-baked#%d' % n,
                           'guard: %s' % ('!only_baked' if flag_false else 'baked()==Ok(Ready)'),
                           'with only_baked set, Track::distances is reachable for tracks whose status is not '
                           'Ok(TrackStatus::Ready) (conditions found: %s)' % conds, c.ln)
@@ -90,12 +101,14 @@ def r1(ctx):
                               'the readiness test examines %r, not the stored track that is compared' % (args[:1],),
                               c.ln)
             # swallowed errors: every `None` result after a failed distances call requires IncompatibleAttributes
-            for d in b.defs().get(0, []):
-                if d[0] != 'assign':
-                    continue
-                rv = d[3]['rv']
-                if not (rv['k'] == 'agg' and rv.get('v') == 'None'):
-                    continue
+            none_sites = []
+            for i_ in sorted(b.live_blocks()):
+                for si_, s_ in enumerate(b.blocks[i_]['st']):
+                    # a `None` built for the per-pair result (also when the pair step lives in an inlined helper)
+                    if s_['k'] == 'assign' and s_['rv']['k'] == 'agg' and s_['rv'].get('v') == 'None' and \
+                            not s_['lhs']['p']:
+                        none_sites.append(('assign', i_, si_, s_))
+            for d in none_sites:
                 conds = path_conditions(b, d[1])
                 failed = [k for k in conds if k.kind == 'discr' and k.variants == {'Err'} and k.expr.has_call(
                     'distances')]
@@ -107,7 +120,7 @@ def r1(ctx):
                     ':', 1)[-1], 'only Errors::IncompatibleAttributes is dropped',
                     'a distance error other than IncompatibleAttributes is silently dropped instead of being '
                     'reported on the error stream', d[3]['ln'])
-    ctx.floor(R, n, 4)
+    ctx.floor(R, n, 2)
 
 
 def r3(ctx):
